@@ -253,3 +253,90 @@ pub fn filter_paths(len: usize, filters: &[Expr]) -> Vec<JPath> {
 pub fn predicate_paths() -> Vec<JPath> {
     predicates().into_iter().map(|e| JPath(vec![Step::Predicate(Box::new(e))])).collect()
 }
+
+// ---------------------------------------------------------------------------------------------
+// ASTs for the syntax check (C09): every literal kind, every index form
+
+pub fn syntax_literals() -> Vec<Expr> {
+    let mut v = lits();
+    for f in [1.5, -0.5, 1e3, 0.25] {
+        v.push(Expr::Lit(Lit::Num(RNum::f(f))));
+    }
+    v.push(Expr::Lit(Lit::Str("".into())));
+    v.push(Expr::Lit(Lit::Str("a b".into())));
+    v.push(Expr::Lit(Lit::Num(RNum::U(u64::MAX))));
+    v.push(Expr::Lit(Lit::Num(RNum::I(i64::MIN))));
+    v
+}
+
+pub fn syntax_index_steps() -> Vec<Step> {
+    let idxs = vec![Idx::N(0), Idx::N(7), Idx::N(2147483647), Idx::Last(0), Idx::Last(-1), Idx::Last(2), Idx::Last(-2147483647), Idx::Last(2147483647)];
+    let mut out = vec![];
+    for a in &idxs {
+        out.push(Step::Indices(vec![AIdx::One(a.clone())]));
+        for b in &idxs {
+            out.push(Step::Indices(vec![AIdx::Slice(a.clone(), b.clone())]));
+            out.push(Step::Indices(vec![AIdx::One(a.clone()), AIdx::One(b.clone())]));
+        }
+    }
+    out.push(Step::Indices(vec![AIdx::One(Idx::N(0)), AIdx::Slice(Idx::N(1), Idx::Last(-1)), AIdx::One(Idx::Last(0))]));
+    out
+}
+
+pub fn syntax_exprs(in_filter: bool) -> Vec<Expr> {
+    let cur = if in_filter { Step::Current } else { Step::Root };
+    let pa = Expr::Paths(vec![cur.clone(), Step::Dot("a".into())]);
+    let pb = Expr::Paths(vec![cur.clone(), Step::Dot("b".into()), Step::BracketWild]);
+    let pr = Expr::Paths(vec![Step::Root, Step::ObjField("k".into()), Step::Indices(vec![AIdx::One(Idx::Last(-1))])]);
+    let mut atoms_v: Vec<Expr> = vec![];
+    for l in syntax_literals() {
+        for c in CMPS {
+            atoms_v.push(Expr::Cmp(c, Box::new(pa.clone()), Box::new(l.clone())));
+            atoms_v.push(Expr::Cmp(c, Box::new(l.clone()), Box::new(pb.clone())));
+        }
+    }
+    atoms_v.push(Expr::Cmp(Cmp::Lt, Box::new(pa.clone()), Box::new(pr.clone())));
+    atoms_v.push(Expr::Cmp(Cmp::Eq, Box::new(Expr::Paths(vec![cur.clone()])), Box::new(Expr::Paths(vec![cur.clone()]))));
+    atoms_v.extend(exists_forms(in_filter));
+    let red: Vec<Expr> = atoms_v.iter().step_by(23).cloned().chain(exists_forms(in_filter).into_iter().take(2)).collect();
+    let mut out = atoms_v.clone();
+    out.extend(compounds(&red));
+    // three-way chains (left associativity)
+    for a in red.iter().take(3) {
+        for b in red.iter().skip(1).take(3) {
+            for c in red.iter().skip(2).take(3) {
+                out.push(Expr::And(Box::new(Expr::And(Box::new(a.clone()), Box::new(b.clone()))), Box::new(c.clone())));
+                out.push(Expr::Or(Box::new(Expr::Or(Box::new(a.clone()), Box::new(b.clone()))), Box::new(c.clone())));
+            }
+        }
+    }
+    out
+}
+
+pub fn syntax_paths() -> Vec<JPath> {
+    let mut out = plain_paths(3);
+    // root omitted (Snowflake style): first step must not be a bare `.name`-less form
+    for p in plain_paths(2) {
+        if p.0.len() > 1 {
+            out.push(JPath(p.0[1..].to_vec()));
+        }
+    }
+    for s in syntax_index_steps() {
+        out.push(JPath(vec![Step::Root, s.clone()]));
+        out.push(JPath(vec![Step::Root, Step::Dot("a".into()), s.clone(), Step::DotWild]));
+    }
+    for n in ["a", "A1", "a_b", "é", "last", "to", "null", "exists", "true1"] {
+        out.push(JPath(vec![Step::Root, Step::Dot(n.into())]));
+        out.push(JPath(vec![Step::Root, Step::Colon(n.into()), Step::ObjField(n.into())]));
+        out.push(JPath(vec![Step::Dot(n.into()), Step::Dot("x".into())]));
+    }
+    for e in syntax_exprs(true) {
+        out.push(JPath(vec![Step::Root, Step::Filter(Box::new(e.clone()))]));
+        out.push(JPath(vec![Step::Root, Step::Dot("a".into()), Step::BracketWild, Step::Filter(Box::new(e)), Step::Dot("b".into())]));
+    }
+    for e in syntax_exprs(false) {
+        out.push(JPath(vec![Step::Predicate(Box::new(e))]));
+    }
+    out.extend(arithmetic_paths());
+    out
+}
